@@ -8,10 +8,19 @@
       offset = point − subtree_com[body_rootid[body]]
       for every dof i in the kinematic chain of the body:  jacr[:, i] = cdof_ang(i);  jacp[:, i] = cdof_lin(i) + cdof_ang(i) × offset
       all other columns are 0
+
+  Actuator Jacobians (section 9): for a slider-crank transmission whose SLIDER site sits on a moving body (smallest
+  topology: crank on the world, slider body with one dof, regular branch det > 0) the generated `_transmission` kernel
+  writes exactly one moment entry, and that entry IS the derivative of the length the kernel writes, along every motion
+  in which the slider axis turns with the body's angular Jacobian column (`da = jacr × a`, the kinematic fact
+  `hasDerivAt_rodrigues` for a hinge) and the slider→crank vector moves with the difference of the translational columns.
+  A swapped cross product (`a × jacr`) or a sign error in `dlda`/`dldv` breaks `transmission_slidercrank_slider_moves`.
+  MISSING for actuators: general trees (several dofs, common ancestors), the degenerate branch, other transmissions.
 -/
 import MjwVerif.Props.C01
 import MjwVerif.Gen.Support
 import MjwVerif.Lemmas.C22
+import MjwVerif.Lemmas.C22Trn
 
 set_option linter.unusedVariables false
 set_option linter.unusedSimpArgs false
@@ -187,6 +196,82 @@ theorem jacp_is_velocity_map_partial (P0 : V3 ℝ) (Qp : Q ℝ) (hQ : nrm2 Qp = 
       _ _ _ bodyid dofid w jbody hanc hroot hcdof]
   rw [this]
   exact jacp_is_velocity_map_hinge P0 Qp hQ a jpos l ha θ
+
+/-! ## 9. slider-crank transmission: the moment written by the kernel is the derivative of the length it writes -/
+
+open Mjw.Lemmas.C22Trn Mjw.Gen.Smooth in
+/-- (9) **`slidercrank_moment_is_length_derivative`**: crank site `0` on the world, slider site `1` on body `1` with one dof
+    (dof `0`); all real inputs arbitrary, regular branch (`det > 0`). Let `t ↦ (a t, v t)` be ANY differentiable motion of the
+    slider axis and of the slider→crank vector that passes through the kernel's inputs at `θ`, in which the axis turns with
+    the angular Jacobian column of the slider body (`a' = jacr × a`) and the vector moves with the difference of the
+    translational columns (`v' = jac_crank − jac_slider`), both columns being the kernel's own `jac_dof` values. Then
+    `_transmission` writes `actuator_length_out = L θ` and exactly the value `L' θ` to `actuator_moment_out`, where
+    `L t = gear · (a t · v t − √((a t · v t)² + r² − v t · v t))`. -/
+theorem slidercrank_moment_is_length_derivative
+    (nv : Int) (bp br dofbody : Int → Int) (anc : Int → Int → Int) (jt jq jd : Int → Int)
+    (squat : Int → Int → Q ℝ) (tn ta tc : Int → Int) (crank : Int → Int → ℝ) (gear : Int → Int → V6 ℝ)
+    (qpos : Int → Int → ℝ) (xquat : Int → Int → Q ℝ) (sxpos : Int → Int → V3 ℝ) (sxmat : Int → Int → M33 ℝ)
+    (com : Int → Int → V3 ℝ) (cdof : Int → Int → V6 ℝ) (tJ tL : Int → Int → ℝ) (mnnz : Int → Int)
+    (lo : Int → Int → ℝ) (rn ra rc : Int → Int → Int) (mo : Int → Int → ℝ)
+    (gs a0' a1' a2' cs a3 a4 a5 qs a6 a7 : Int) (fuel : Nat) (w a : Int)
+    (hdet : 0 < scDet (sliderAxis (sxmat w 1)) ((sxpos w 0).sub (sxpos w 1)) (crank (Int.tmod w cs) a))
+    (a0 a1 a2 v0 v1 v2 : ℝ → ℝ) (θ : ℝ)
+    (hA : (⟨a0 θ, a1 θ, a2 θ⟩ : V3 ℝ) = sliderAxis (sxmat w 1))
+    (hV : (⟨v0 θ, v1 θ, v2 θ⟩ : V3 ℝ) = (sxpos w 0).sub (sxpos w 1))
+    (ha0 : HasDerivAt a0 (V3.cross (Gen.Support.jac_dof bp br dofbody anc com cdof (sxpos w 1) 1 0 w).2 (sliderAxis (sxmat w 1))).c0 θ)
+    (ha1 : HasDerivAt a1 (V3.cross (Gen.Support.jac_dof bp br dofbody anc com cdof (sxpos w 1) 1 0 w).2 (sliderAxis (sxmat w 1))).c1 θ)
+    (ha2 : HasDerivAt a2 (V3.cross (Gen.Support.jac_dof bp br dofbody anc com cdof (sxpos w 1) 1 0 w).2 (sliderAxis (sxmat w 1))).c2 θ)
+    (hv0 : HasDerivAt v0 ((Gen.Support.jac_dof bp br dofbody anc com cdof (sxpos w 0) 0 0 w).1.sub
+                            (Gen.Support.jac_dof bp br dofbody anc com cdof (sxpos w 1) 1 0 w).1).c0 θ)
+    (hv1 : HasDerivAt v1 ((Gen.Support.jac_dof bp br dofbody anc com cdof (sxpos w 0) 0 0 w).1.sub
+                            (Gen.Support.jac_dof bp br dofbody anc com cdof (sxpos w 1) 1 0 w).1).c1 θ)
+    (hv2 : HasDerivAt v2 ((Gen.Support.jac_dof bp br dofbody anc com cdof (sxpos w 0) 0 0 w).1.sub
+                            (Gen.Support.jac_dof bp br dofbody anc com cdof (sxpos w 1) 1 0 w).1).c2 θ) :
+    let ws := _transmission (K := ℝ) nv bp br (fun b => b) dofnum dofadr jt jq jd dofbody (fun _ => -1) (fun s => s) squat
+        tn ta tc (fun _ => 2) (fun _ => ⟨0, 1⟩) crank gear anc qpos xquat sxpos sxmat com cdof tJ tL mnnz lo rn ra rc mo
+        gs a0' a1' a2' cs a3 a4 a5 qs a6 a7 (fuel + 2) w a
+    let L : ℝ → ℝ := fun t => scLength ⟨a0 t, a1 t, a2 t⟩ ⟨v0 t, v1 t, v2 t⟩ (crank (Int.tmod w cs) a) * (gear (Int.tmod w gs) a).c0
+    (Write.mk "actuator_length_out" [w, a] (WVal.f (L θ)) WKind.set : Write ℝ) ∈ ws
+    ∧ ∃ m : ℝ, (∀ x : ℝ, (Write.mk "actuator_moment_out" [w, a3] (WVal.f x) WKind.set : Write ℝ) ∈ ws ↔ x = m)
+        ∧ HasDerivAt L m θ := by
+  intro ws L
+  have hw : ws = _ := transmission_slidercrank_slider_moves nv bp br dofbody anc jt jq jd squat tn ta tc crank gear qpos xquat
+    sxpos sxmat com cdof tJ tL mnnz lo rn ra rc mo gs a0' a1' a2' cs a3 a4 a5 qs a6 a7 fuel w a hdet
+  have hdet' : 0 < scDet ⟨a0 θ, a1 θ, a2 θ⟩ ⟨v0 θ, v1 θ, v2 θ⟩ (crank (Int.tmod w cs) a) := by rw [hA, hV]; exact hdet
+  have hd := (hasDerivAt_scLength a0 a1 a2 v0 v1 v2 _ _ (crank (Int.tmod w cs) a) θ ha0 ha1 ha2 hv0 hv1 hv2 hdet').mul_const
+    (gear (Int.tmod w gs) a).c0
+  refine ⟨?_, _, ?_, hd⟩
+  · rw [hw]
+    simp only [L, scLength, hA, hV]
+    simp
+  · intro x
+    rw [hw]
+    simp only [hA, hV, scMoment]
+    simp
+
+open Mjw.Lemmas.C22Trn in
+/-- non-vacuity of (9): a hinge about the world z axis through the origin (`cdof = (0,0,1; 0,0,0)`, `subtree_com = 0`)
+    carries the slider site at `(cos t, sin t, 0)` with slider axis `(cos t, sin t, 0)`; the crank site `(3, 1, 0)` is fixed in
+    the world; rod length 2 (`det = 3` at `t = 0`). All hypotheses hold at `θ = 0`. -/
+example : ∃ m : ℝ, HasDerivAt (fun t => scLength ⟨Real.cos t, Real.sin t, 0⟩ ⟨3 - Real.cos t, 1 - Real.sin t, 0⟩ 2 * 1) m 0 := by
+  have hc := Real.hasDerivAt_cos 0
+  have hsn := Real.hasDerivAt_sin 0
+  obtain ⟨-, m, -, hm⟩ := slidercrank_moment_is_length_derivative 1 (fun _ => 0) (fun _ => 0) (fun _ => 1)
+    (fun b _ => if b = 1 then 1 else 0) (fun _ => 3) (fun _ => 0) (fun _ => 0) (fun _ _ => ⟨1, 0, 0, 0⟩) (fun _ => 0) (fun _ => 0)
+    (fun _ => 0) (fun _ _ => 2) (fun _ _ => ⟨1, 0, 0, 0, 0, 0⟩) (fun _ _ => 0) (fun _ _ => ⟨1, 0, 0, 0⟩)
+    (fun _ s => if s = 0 then ⟨3, 1, 0⟩ else ⟨1, 0, 0⟩) (fun _ _ => ⟨0, 0, 1, 1, 0, 0, 0, 1, 0⟩) (fun _ _ => ⟨0, 0, 0⟩)
+    (fun _ _ => ⟨0, 0, 1, 0, 0, 0⟩) (fun _ _ => 0) (fun _ _ => 0) (fun _ => 0) (fun _ _ => 0) (fun _ _ => 0) (fun _ _ => 0)
+    (fun _ _ => 0) (fun _ _ => 0) 1 0 0 0 1 0 0 0 1 0 0 0 0 0
+    (by norm_num [scDet, sliderAxis, V3.dot, V3.sub])
+    (fun t => Real.cos t) (fun t => Real.sin t) (fun _ => 0) (fun t => 3 - Real.cos t) (fun t => 1 - Real.sin t) (fun _ => 0) 0
+    (by simp [sliderAxis]) (by simp [V3.sub])
+    (by simpa [Gen.Support.jac_dof, V3.cross, sliderAxis, V6.top, V6.bottom] using hc)
+    (by simpa [Gen.Support.jac_dof, V3.cross, sliderAxis, V6.top, V6.bottom] using hsn)
+    (by simpa [Gen.Support.jac_dof, V3.cross, sliderAxis, V6.top, V6.bottom] using hasDerivAt_const (0 : ℝ) (0 : ℝ))
+    (by simpa [Gen.Support.jac_dof, V3.cross, V3.sub, V3.add, V3.fill, V6.top, V6.bottom] using (hc.const_sub 3))
+    (by simpa [Gen.Support.jac_dof, V3.cross, V3.sub, V3.add, V3.fill, V6.top, V6.bottom] using (hsn.const_sub 1))
+    (by simpa [Gen.Support.jac_dof, V3.cross, V3.sub, V3.add, V3.fill, V6.top, V6.bottom] using hasDerivAt_const (0 : ℝ) (0 : ℝ))
+  exact ⟨m, hm⟩
 
 /-- non-vacuity: a unit frame quaternion and a unit axis -/
 example : nrm2 (⟨3/5, 0, 4/5, 0⟩ : Q ℝ) = 1 ∧ vnrm2 (⟨0, 0, 1⟩ : V3 ℝ) = 1 := by
